@@ -129,6 +129,31 @@ def check_set(ctx, names, ranks=None, perms=6, rng=None):
     ctx.count("sets:sorted")
 
 
+def law_rename_resort(ctx, rng):
+    """Sorting must follow the names the scaffolds have *now*: sort, rename the same objects, sort again."""
+    from tola.assembly.assembly import Assembly
+    from tola.assembly.scaffold import Scaffold
+
+    n = rng.randint(3, 9)
+    first = [f"Scaffold_{k}" for k in rng.sample(range(1, 40), n)]
+    second = [f"SUPER_{k}" for k in rng.sample(range(1, 40), n)]
+    scs = [Scaffold(nm, rank=1) for nm in first]
+    a = Assembly("a", scaffolds=list(scs))
+    ctx.case()
+    ctx.nontrivial([first, second])
+    a.scaffolds_sorted_by_name()
+    a.smart_sort_scaffolds()
+    for s_, nm in zip(scs, second):
+        s_.name = nm
+    a.smart_sort_scaffolds()
+    got = [s_.name for s_ in a.scaffolds]
+    got2 = [s_.name for s_ in a.scaffolds_sorted_by_name()]
+    want = [f"SUPER_{k}" for k in sorted(int(x.split("_")[1]) for x in second)]
+    ctx.count("law:rename-resort")
+    if got != want or got2 != want:
+        ctx.violation("order-follows-names-from-an-earlier-sort", f"after renaming {first} -> {second}: {got} / {got2}, expected {want}", {"kind": "names", "names": second})
+
+
 def law_numeric(ctx, rng):
     P = rng.choice(["SUPER_", "scaffold_", "chr", "H_", "a.b-", "x_I_"])
     S = rng.choice(["", "_unloc_1", "A", ".x", "_I"])
@@ -221,7 +246,9 @@ def run(shard, ctx):
     for i in range(shard["n"]):
         rng = rng_for(shard["seed"], "c20", shard["index"], i)
         k = i % 8
-        if k == 5:
+        if k == 4 and i % 16 == 4:
+            law_rename_resort(ctx, rng)
+        elif k == 5:
             law_numeric(ctx, rng)
         elif k == 6:
             law_roman(ctx, rng)
@@ -247,5 +274,5 @@ def plan(tier, seed):
 
 
 def gates(c, tier):
-    need = {"sets:sorted": 2000, "law:numeric": 500, "law:roman": 500, "law:unloc": 500, "monitor_evals:name_natural_key": 50000}
+    need = {"sets:sorted": 2000, "law:numeric": 500, "law:roman": 500, "law:unloc": 500, "law:rename-resort": 200, "monitor_evals:name_natural_key": 50000}
     return [f"{k}>={v} (got {c.get(k, 0)})" for k, v in need.items() if c.get(k, 0) < v]
